@@ -222,10 +222,10 @@ func (m *clientHelloMsg) marshal() []byte {
 			if m.extendedRandomEnabled {
 				b.AddUint16(extensionExtendedRandom)
 				b.AddUint16LengthPrefixed(func(b *cryptobyte.Builder) {
-					exLen := len(m.extendedRandom)
-					fullLength := 2 + exLen
-					b.AddUint16(uint16(fullLength))
-					b.AddUint16(uint16(exLen))
+					// extension_data holds opaque extended_random_value<0..2^16-1>;
+					// the extension_data length itself is written by the
+					// enclosing AddUint16LengthPrefixed.
+					b.AddUint16(uint16(len(m.extendedRandom)))
 					b.AddBytes(m.extendedRandom)
 				})
 			}
